@@ -391,6 +391,9 @@ def case_circle(mon, lon, lat, offs):
     mx = max(seps)
     mon.cls("three-bodies", ("circ", lon, lat, tuple(map(tuple, offs))))
     if mx < 1e-7:
+        # all three at one place: the circle has shrunk to that point
+        mon.check("circle_diameter.bounds", abs(d) <= 1e-6,
+                  dict(case, diameter=d, max_separation=mx))
         return
     mon.check("circle_diameter.bounds", mx * (1 - 1e-9) - 1e-9 <= d
               <= mx * 2.0 / math.sqrt(3.0) * (1 + 1e-9) + 1e-9,
@@ -521,7 +524,13 @@ def run(mon, spec):
             case_alias(mon, *p)
         if rng.random() < 0.25:
             k = rng.random()
-            if k < 0.4:      # obtuse / nearly collinear
+            if k < 0.12:     # two, or all three, bodies at the same position
+                q = (rng.uniform(-2, 2), rng.uniform(-2, 2))
+                r = (rng.uniform(-2, 2), rng.uniform(-2, 2))
+                offs = rng.choice(([q, q, r], [q, r, q], [r, q, q],
+                                   [q, q, q]))
+                mon.cls("coincident-bodies", ("co", lon1, lat1, q, r))
+            elif k < 0.4:    # obtuse / nearly collinear
                 offs = [(0.0, 0.0), (rng.uniform(1, 4), rng.uniform(-.2, .2)),
                         (rng.uniform(0.3, 0.9), rng.uniform(-.1, .1))]
             else:
